@@ -160,8 +160,61 @@ fn known_regression(ctx: &Ctx) {
 	}
 }
 
+/// Known finding: a reader lock acquired after a dereference was submitted, in the window
+/// between the worker's dereference walk (under the tree's write lock) and the publication of
+/// its record, still sees the root and then loses the nodes. Needs the real worker threads;
+/// the window is hit by repetition (the oracle itself is schedule-independent).
+fn known_vanish_regression(ctx: &Ctx) {
+	if ctx.shard != 0 {
+		return
+	}
+	use parity_db::{NewNode, NodeRef, Operation};
+	let dir = ctx.case_dir();
+	let cfg = DbCfg::new(vec![ColCfg::multi()]);
+	let observed = guarded(|| -> Res<Option<String>> {
+		let db = parity_db::Db::open_or_create(&cfg.options(&dir, true)).map_err(|e| Failure::new("open-failed", e.to_string()))?;
+		let t0 = std::time::Instant::now();
+		let mut i = 0u16;
+		while t0.elapsed() < std::time::Duration::from_secs(12) && i < 20_000 {
+			let key = cfg.cols[0].key(i);
+			let children = (0..150u16).map(|c| NodeRef::New(NewNode { data: vec![c as u8; 24], children: vec![] })).collect();
+			db.commit_changes(vec![(0u8, Operation::InsertTree(key.clone(), NewNode { data: vec![1, 2, 3], children }))]).map_err(|e| Failure::new("commit-failed", e.to_string()))?;
+			db.commit_changes(vec![(0u8, Operation::DereferenceTree(key.clone()))]).map_err(|e| Failure::new("commit-failed", e.to_string()))?;
+			// lock the reader again and again until the tree is gone
+			for _ in 0..10_000 {
+				let tree = match db.get_tree(0, &key) {
+					Ok(Some(t)) => t,
+					_ => break,
+				};
+				let guard = tree.read();
+				match guard.get_root() {
+					Ok(Some((_, ch))) =>
+						for a in ch {
+							if let Ok(None) = guard.get_node(a) {
+								return Ok(Some(format!("iteration {i}: root readable under the read lock, node {a:#x} gone")))
+							}
+						},
+					_ => break,
+				}
+			}
+			i += 1;
+		}
+		Ok(None)
+	});
+	let _ = std::fs::remove_dir_all(&dir);
+	let mut rep = ctx.report.borrow_mut();
+	match observed {
+		Ok(Some(how)) => rep.known_findings.push(format!(
+			"a tree reader locked AFTER the tree's dereference was submitted can see the root and then lose the nodes while holding the lock: the worker checks 'not locked', walks the tree under its write lock, releases it, and publishes the removal only with the record [locked-reader-after-queued-dereference] ({how})"
+		)),
+		Ok(None) => rep.notes.push("known finding locked-reader-after-queued-dereference was not observed within its repetition budget".to_string()),
+		Err(f) => rep.notes.push(format!("known-finding regression failed differently: {} {}", f.sig, f.detail)),
+	}
+}
+
 fn run(ctx: &Ctx) {
 	known_regression(ctx);
+	known_vanish_regression(ctx);
 	let n = scaled(ctx, 5_000, 120_000);
 	ctx.run_prop_shrink("locked", n, 40, scenario(), |sc, dir| run_scenario(sc, dir, false));
 }
